@@ -28,7 +28,7 @@ Task: make ONE small source change (a few lines, in the library crates, not in t
   (a) the whole workspace still compiles, and
   (b) the existing test suite still passes unchanged (`cargo test --offline -p <affected crate(s)>`, and make sure dependents still compile: `cargo build --offline --workspace`), and
   (c) it needs something SPECIFIC to manifest — a particular thread interleaving, a multi-step sequence of operations, an unusual input value/shape, a boundary condition, or two cooperating sites that each look fine alone — NOT something ordinary use would expose at once.
-Then write a demonstration: a new test file or small example program in the worktree (e.g. {wt}/<crate>/tests/demo_{pid.lower()}.rs) that FAILS with your change and PASSES without it (verify both: use `git stash` / `git stash pop` or apply/revert your patch to check the unchanged behaviour). If the violation needs a thread interleaving, make the demo deterministic if you can (e.g. with sleeps/barriers at the right places or by calling the steps in the critical order), or loop until it manifests with a bounded number of attempts.
+Then write a demonstration: a new test file or small example program in the worktree (e.g. {wt}/<crate>/tests/demo_{pid.lower()}.rs) that FAILS with your change and PASSES without it (verify both: use `git diff > p.diff; git apply -R p.diff` … `git apply p.diff` — never `git stash`, the stash is shared between worktrees — to check the unchanged behaviour). If the violation needs a thread interleaving, make the demo deterministic if you can (e.g. with sleeps/barriers at the right places or by calling the steps in the critical order), or loop until it manifests with a bounded number of attempts.
 
 Deliver, inside {wt}/_out/ (create it):
   - patch.diff : `git diff` of ONLY the library source change (not the demo), applicable with `git apply` at the repository root;
